@@ -122,15 +122,15 @@ theorem apiBuildList_spec (i a : Nat) (hok : (Root.val i).ok = true) : ∀ (xs d
       · simp [he]
       · simp [he]
 
-theorem apiBuildTable_spec (fuel i a : Nat) (hok : (Root.val i).ok = true) : ∀ (es done : List (Str × Str × V)) (g : Heap)
+theorem apiBuildTable_spec (i a : Nat) (hok : (Root.val i).ok = true) : ∀ (es done : List (Str × Str × V)) (g : Heap)
     (sl : Root → Option Nat) (q : PState) (Fq : Root → List Nat), RepS [] ⟨g, sl⟩ q Fq → sl (.val i) = some a →
-    q.get (.val i) = some (.tbl done) → needEntries done + needEntries es ≤ fuel →
-    ∃ g' Fq', apiBuildTable fuel g a es = some g'
+    q.get (.val i) = some (.tbl done) →
+    ∃ g' Fq', apiBuildTable g a es = some g'
       ∧ RepS [] ⟨g', sl⟩ (setP q (.val i) (some (.tbl (es.foldl (fun acc e => mapSet acc e.1 e.2.1 (some e.2.2)) done)))) Fq' := by
   intro es
   induction es with
   | nil =>
-    intro done g sl q Fq inv _ hq _
+    intro done g sl q Fq inv _ hq
     refine ⟨g, Fq, rfl, inv.congrP (fun r => ?_)⟩
     simp only [setP_get, List.foldl_nil]
     by_cases he : r = .val i
@@ -138,22 +138,24 @@ theorem apiBuildTable_spec (fuel i a : Nat) (hok : (Root.val i).ok = true) : ∀
     · simp [he]
   | cons e es ih =>
     obtain ⟨k, ko, x⟩ := e
-    intro done g sl q Fq inv hsl hq hfuel
+    intro done g sl q Fq inv hsl hq
     have hget : getP q ⟨.val i, []⟩ = some (.tbl done) := by simp [getP, hq, resolve]
     obtain ⟨t, hvt, Ft, hres, hgt, hrept, htF, hFt, hk⟩ := inv.atAny ⟨.val i, []⟩ _ hget
     have hta : t = a := resolve_slot_root hsl hres
     subst hta
     obtain ⟨ents, rfl, hen⟩ := Rep_tbl hrept
-    simp only [needEntries] at hfuel
-    obtain ⟨ents', h1, h2, F', hop, hput, U⟩ := mapSetPut_spec g inv.wf t ents done Ft k ko x fuel hgt hen htF hFt (by omega)
+    have hfuel : needEntries done ≤ fuelOf g := by
+      have := inv.fitsAt (3 * g.next + 2) (Nat.le_refl _) (.val i) _ hq
+      simp only [need] at this
+      simp only [fuelOf]; omega
+    obtain ⟨ents', h1, h2, F', hop, hput, U⟩ := mapSetPut_spec g inv.wf t ents done Ft k ko x (fuelOf g) hgt hen htF hFt hfuel
     obtain ⟨q', F'', hputP, inv'⟩ := hk h2 _ _ F' [] U
     have inv2 : RepS [] ⟨h2, sl⟩ q' F'' := inv'.congrT (fun a => by simp)
     have hq' : q' = setP q (.val i) (some (.tbl (mapSet done k ko (some x)))) := by
       simp only [putP, hq, update, Option.some.injEq] at hputP
       exact hputP.symm
     subst hq'
-    have hle := needEntries_mapSet_le done k ko x
-    obtain ⟨g', Fq', hrec, invr⟩ := ih (mapSet done k ko (some x)) h2 sl _ F'' inv2 hsl (by simp [setP_get]) (by omega)
+    obtain ⟨g', Fq', hrec, invr⟩ := ih (mapSet done k ko (some x)) h2 sl _ F'' inv2 hsl (by simp [setP_get])
     refine ⟨g', Fq', ?_, invr.congrP (fun r => ?_)⟩
     · simp only [apiBuildTable, hgt, hop, hput, compact_eq h2 inv2.wf]
       exact hrec
@@ -165,17 +167,14 @@ theorem apiBuildTable_spec (fuel i a : Nat) (hok : (Root.val i).ok = true) : ∀
 section
 variable {s : HState} {p : PState} {F : Root → List Nat}
 
-theorem step_bld (inv : RepS [] s p F) (fuel : Nat) (i : Nat) (v : V) (hm : Fits fuel (midP p (.bld i v))) :
+theorem step_bld (inv : RepS [] s p F) (fuel : Nat) (i : Nat) (v : V) :
     Sim [] (stepH? fuel s (.bld i v)) (stepP? p (.bld i v)) := by
   simp only [stepH?, stepP?, ← inv.slot_iff]
   by_cases hc : ((Root.val i).ok && (s.slot (.val i)).isNone) = true
   · simp only [hc, if_true]
     simp only [Bool.and_eq_true, Option.isNone_iff_eq_none] at hc
-    have hneed : need v ≤ fuel := by
-      apply hm (.val i) v
-      simp [midP, hc.1, setP_get]
     -- scalars: a plain copy
-    have scalar : (∀ vs, v ≠ .lst vs) → (∀ es, v ≠ .tbl es) → apiBuild fuel s.h v = some (buildNew s.h v) ∧ apiValue v = v := by
+    have scalar : (∀ vs, v ≠ .lst vs) → (∀ es, v ≠ .tbl es) → apiBuild s.h v = some (buildNew s.h v) ∧ apiValue v = v := by
       intro h1 h2
       cases v <;> first | exact ⟨rfl, rfl⟩ | exact absurd rfl (h1 _) | exact absurd rfl (h2 _)
     by_cases hl : ∃ vs, v = .lst vs
@@ -190,7 +189,7 @@ theorem step_bld (inv : RepS [] s p F) (fuel : Nat) (i : Nat) (v : V) (hm : Fits
           rw [alloc_next] at this
           simp; omega)
       obtain ⟨g', Fq', hrec, invr⟩ := apiBuildList_spec i s.h.next hc.1 vs [] _ _ _ _ inv0 (by simp) (by simp [setP_get])
-      have hab : apiBuild fuel s.h (.lst vs) = some (s.h.next, g') := by
+      have hab : apiBuild s.h (.lst vs) = some (s.h.next, g') := by
         simp only [apiBuild, alloc]
         simp only [alloc, List.length_nil] at hrec
         rw [hrec]; rfl
@@ -210,9 +209,8 @@ theorem step_bld (inv : RepS [] s p F) (fuel : Nat) (i : Nat) (v : V) (hm : Fits
             have := isSome_lt (alloc_WF s.h _ inv.wf) hl
             rw [alloc_next] at this
             simp; omega)
-        obtain ⟨g', Fq', hrec, invr⟩ := apiBuildTable_spec fuel i s.h.next hc.1 es [] _ _ _ _ inv0 (by simp) (by simp [setP_get])
-          (by simp only [need] at hneed; simp only [needEntries]; omega)
-        have hab : apiBuild fuel s.h (.tbl es) = some (s.h.next, g') := by
+        obtain ⟨g', Fq', hrec, invr⟩ := apiBuildTable_spec i s.h.next hc.1 es [] _ _ _ _ inv0 (by simp) (by simp [setP_get])
+        have hab : apiBuild s.h (.tbl es) = some (s.h.next, g') := by
           simp only [apiBuild, alloc]
           simp only [alloc] at hrec
           rw [hrec]; rfl
